@@ -6,7 +6,9 @@ import (
 	"go/constant"
 	"go/token"
 	"go/types"
+	"path/filepath"
 	"sort"
+	"strings"
 
 	"golang.org/x/tools/go/ssa"
 )
@@ -239,6 +241,10 @@ func (p *Program) inFile(fn *ssa.Function, file string) bool {
 	for f := fn; f != nil; f = f.Parent() {
 		if f.Pos().IsValid() {
 			ps := p.Fset.Position(f.Pos())
+			if strings.HasPrefix(file, "*") {
+				// "*_request.go": any file of the package root with that suffix
+				return strings.HasSuffix(ps.Filename, file[1:]) && filepath.Dir(ps.Filename) == p.Repo
+			}
 			return ps.Filename == p.Repo+"/"+file
 		}
 	}
